@@ -27,6 +27,9 @@ Round 4: clauses (c), (d) and the mask of (a) are decided on the bit-provenance 
 
 Round 5: 'value or default' in the merge; init that never touches the shared slot; the first
 member emitting the shared Int (witnessed violations).
+
+Round 6: (a0) the builder keeps class-body order; a run-wide all-ones mask kept on the shared
+Int is understood by the bit provenance; membership / init rules three-valued.
 """
 import ast
 import copy
